@@ -15,7 +15,8 @@ ASSUMPTIONS = ['the SI definitions in mc/ref/units.py (exact inch, lb, grain, nm
                'magnitudes outside the alphabet are not explored',
                'ulp bounds: round trip and A>B>C vs A>C within 8 ulp of the largest intermediate']
 
-MAGS = [0, 1, -1, 0.1, -0.1, 3, 7.5, 59, 273.15, -40, 1e-9, 1e-6, 2.5e3, 12345.678, 1e6]
+# incl. exactly one full turn in every angular unit (360 deg, 21600 MOA, 6400 mil, 6000 thousandths, 12 o'clock, 2 pi rad, 2000 pi mrad)
+MAGS = [0, 1, -1, 0.1, -0.1, 3, 7.5, 59, 273.15, -40, 1e-9, 1e-6, 2.5e3, 12345.678, 1e6, 360, 21600, 6400, 6000, 12, 2 * math.pi, 2000 * math.pi]
 MAGS_THOROUGH = MAGS + [0.5, 2, 10, 100, 1e3, 1e-3, -273.15, 459.67, 6400, 21600, 1e9, 1e-12, -1e6, 0.3333333333333333]
 EPS = 2.0 ** -52
 TWO_PI = 2 * math.pi
@@ -32,7 +33,7 @@ def admissible(dim, us, m):
     r = R.to_rad(us[0], m)
     if any(u in R.TAN for u in us):
         return abs(r) <= math.radians(60)
-    return abs(r) <= TWO_PI * (1 - 1e-9)
+    return abs(r) <= TWO_PI * (1 + 4 * EPS)       # one full turn included
 
 
 def temp_scale(u, m):
